@@ -195,7 +195,11 @@ enum Seen {
 }
 
 fn read_plain(img: &[u8], cap: usize) -> Seen {
-    match ShapeReader::new(Cursor::new(img.to_vec())) {
+    drain_plain(ShapeReader::new(Cursor::new(img.to_vec())), cap)
+}
+
+fn drain_plain<T: std::io::Read + std::io::Seek>(rd: Result<ShapeReader<T>, Error>, cap: usize) -> Seen {
+    match rd {
         Err(_) => Seen::OpenErr,
         Ok(mut rd) => {
             let mut v = vec![];
@@ -370,6 +374,33 @@ pub fn run(ctx: &Ctx) -> Report {
                         }
                     }
                 },
+            }
+            // ---- the same image as a file opened by path (no .shx next to it): a sample of the
+            // images, and every second one that holds committed shapes
+            if !cfg!(miri) && (pi % 8 == 3 || (floor > 0 && pi % 2 == 1)) {
+                let dir = format!("{}/files", ctx.out);
+                let path = format!("{}/{}.shp", dir, case.replace(':', "_").replace('.', "-"));
+                if std::fs::create_dir_all(&dir).is_ok() && std::fs::write(&path, &img).is_ok() {
+                    rep.count("shp_images_opened_by_path", 1);
+                    let seen = panicmon::catch(|| drain_plain(ShapeReader::from_path(&path), cap));
+                    let _ = std::fs::remove_file(&path);
+                    match seen {
+                        Err(p) => rep.violation(&format!("{}/by-path/panic", ph), &case, detail(p.class(), "ShapeReader::from_path", None)),
+                        Ok(Seen::OpenErr) => {
+                            if floor > 0 {
+                                rep.violation(&format!("{}/by-path/lost-committed", ph), &case, detail("open failed although a finalize had completed".into(), "ShapeReader::from_path", None));
+                            }
+                        }
+                        Ok(Seen::Items(items)) => match prefix_ok(&items, &w.want) {
+                            Err(e) => rep.violation(&format!("{}/by-path/{}", ph, e.split('.').next().unwrap()), &case, detail(e, "ShapeReader::from_path", None)),
+                            Ok(got) => {
+                                if got < floor {
+                                    rep.violation(&format!("{}/by-path/lost-committed", ph), &case, detail(format!("{} shapes readable, {} were committed", got, floor), "ShapeReader::from_path", None));
+                                }
+                            }
+                        },
+                    }
+                }
             }
             // ---- reader with index: pairs of crash points
             for (xi, ximg) in shx_images.iter().enumerate() {
